@@ -92,7 +92,10 @@ def bitfield_roles(vals):
                     and norm(c.args[1]) == ln and isinstance(c.args[2], ast.Call) and call_name(c.args[2]) in classes:
                 k = c.args[2]
                 kw = {x.arg: norm(x.value) for x in k.keywords}
-                if kw == {"name": ln, "mask": lv} or [norm(x) for x in k.args] == [ln, lv]:
+                pos = [norm(x) for x in k.args]
+                # the accessor is built from the member's name and mask (and, possibly, the class it is installed on)
+                given = pos + list(kw.values())
+                if given.count(ln) == 1 and given.count(lv) == 1 and set(given) <= {ln, lv, "cls"} and None not in kw:
                     sets.append((lp, c, classes[call_name(k)], ln, lv))
     if len(sets) != 1:
         raise AnalysisError("model guard G5: tpm_bitfield no longer installs one accessor(name, mask) for each public attribute")
@@ -105,7 +108,10 @@ def bitfield_roles(vals):
     meth = {m.name: m for m in kcls.body if isinstance(m, ast.FunctionDef)}
     if "__get__" not in meth:
         raise AnalysisError("model guard G5: the accessor class of tpm_bitfield has no __get__")
-    return dict(dec=dec, loop=lp, install=call, accessor=kcls, init=meth.get("__init__"), get=meth["__get__"])
+    k = call.args[2]
+    role = {ln: "name", lv: "mask", "cls": "cls"}
+    return dict(dec=dec, loop=lp, install=call, accessor=kcls, init=meth.get("__init__"), get=meth["__get__"],
+                init_args=[role[norm(x)] for x in k.args], init_kwargs={x.arg: role[norm(x.value)] for x in k.keywords})
 
 
 def check(run, project, L, rule="G"):
